@@ -229,6 +229,38 @@ pub mod prim {
         //@@ element_delete_by_id
     }
 
+    pub struct XmlDocument {
+        pub ident: usize,
+        pub children: Vec<ItemRef>,
+        pub parent_of: Ghost<Map<usize, Option<usize>>>,
+    }
+    impl XmlDocument {
+        pub fn id(&self) -> (r: usize) ensures r == self.ident { self.ident }
+        #[verifier::external_body]
+        pub fn child_index(&self, id: usize) -> (r: Option<usize>)
+            ensures r is Some <==> ids(self.children@).contains(id),
+                    r is Some ==> r->Some_0 < self.children@.len() && self.children@[r->Some_0 as int].ident == id,
+        { unimplemented!() }
+        // read-only lookups over the child list (assumed callees)
+        #[verifier::external_body]
+        pub fn document_declaration(&self) -> (r: Option<usize>) { unimplemented!() }
+        #[verifier::external_body]
+        pub fn document_element(&self) -> (r: error::Result<usize>) { unimplemented!() }
+        #[verifier::external_body]
+        pub fn world_remove_from_parent(&mut self, value: &ItemRef)
+            ensures final(self).ident == old(self).ident,
+                    final(self).parent_of@ == old(self).parent_of@.insert(value.ident, None),
+                    final(self).children@ == old(self).children@.filter(|x: ItemRef| x.ident != value.ident),
+        { unimplemented!() }
+        #[verifier::external_body]
+        pub fn world_set_parent_id(&mut self, value: &ItemRef, parent: Option<usize>)
+            ensures final(self).ident == old(self).ident, final(self).children@ == old(self).children@,
+                    final(self).parent_of@ == old(self).parent_of@.insert(value.ident, parent),
+        { unimplemented!() }
+
+        //@@ document_insert_by_id
+    }
+
     impl XmlAttribute {
         pub fn id(&self) -> (r: usize) ensures r == self.ident { self.ident }
         #[verifier::external_body]
@@ -303,6 +335,26 @@ def build():
                       inject=[(r'let index = self\.child_index\(id\)\.unwrap\(\);', f'proof {{ {lem}(old(self).{lst}@, value.ident, Some(id)); }}', 'before'),
                               (rf'self\.{lst}\.insert\(index, ', f'proof {{ assert({idsf}(self.{lst}@)[index as int] == value.ident); }}'),
                               (rf'self\.{lst}\.push\(', f'proof {{ assert({idsf}(self.{lst}@)[self.{lst}@.len() - 1] == value.ident); }}')])
+    ADD_REQ = 'requires id is Some ==> id->Some_0 != value.ident && ids(old(doc).children@).contains(id->Some_0),'
+    ADD_ENS = ('ensures ids(final(doc).children@).contains(value.ident) && final(doc).parent_of@[value.ident] == Some(old(doc).ident) && final(doc).ident == old(doc).ident'
+               ' && (forall|i: int, j: int| 0 <= i < final(doc).children@.len() && 0 <= j < final(doc).children@.len() && #[trigger] ids(final(doc).children@)[i] == value.ident && #[trigger] ids(final(doc).children@)[j] == value.ident ==> i == j),')
+    fns['document_insert_by_id'] = Fn(
+        FI, 'impl HasChildren for XmlDocument', 'insert_by_id', props=P, sig_rules=SRP, label='XmlDocument::insert_by_id',
+        rules=[Rule('R45', r'fn add_or_insert\(doc: &XmlDocument, value: Rc<XmlItem>, id: Option<usize>\) \{',
+                    f'fn add_or_insert(doc: &mut XmlDocument, value: ItemRef, id: Option<usize>) {ADD_REQ} {ADD_ENS} {{',
+                    'nested helper: &XmlDocument mutated through RefCell -> &mut (A4), Rc<XmlItem> -> ItemRef; its contract is spliced here (specification only)'),
+               Rule('R43', r'value\.remove_from_parent\(\);', 'doc.world_remove_from_parent(&value);', 'shared world made explicit on the receiver'),
+               Rule('R43', r'value\.set_parent_id\(Some\(doc\.id\(\)\)\);', 'let __me = doc.id(); doc.world_set_parent_id(&value, Some(__me));', 'same'),
+               Rule('R11', r'doc\.children\.borrow_mut\(\)\.', 'doc.children.', 'RefCell borrow dropped (A4)'),
+               Rule('R44', r'match &\*value \{', 'match value.item() {', 'deref of Rc<XmlItem> -> accessor of the environment handle')],
+        requires=[('reference_child_exists_and_is_not_the_value', 'id is Some ==> id->Some_0 != value.ident && ids(old(self).children@).contains(id->Some_0)')],
+        ensures=[('C13+C12:refused_call_changes_nothing', 'r is Err ==> final(self).children@ == old(self).children@ && final(self).parent_of@ == old(self).parent_of@'),
+                 ('C13+C12:accepted_child_is_listed_once_under_this_parent', 'r is Ok ==> r->Ok_0 == value && ids(final(self).children@).contains(value.ident) && final(self).parent_of@[value.ident] == Some(old(self).ident)'),
+                 ('C12:accepted_child_is_listed_exactly_once', 'r is Ok ==> (forall|i: int, j: int| 0 <= i < final(self).children@.len() && 0 <= j < final(self).children@.len()'
+                  ' && #[trigger] ids(final(self).children@)[i] == value.ident && #[trigger] ids(final(self).children@)[j] == value.ident ==> i == j)')],
+        inject=[(r'let index = doc\.child_index\(id\)\.unwrap\(\);', 'proof { lemma_filter_keeps_items(old(doc).children@, value.ident, Some(id)); }', 'before'),
+                (r'doc\.children\.insert\(index, ', 'proof { assert(ids(doc.children@)[index as int] == value.ident); }'),
+                (r'doc\.children\.push\(', 'proof { assert(ids(doc.children@)[doc.children@.len() - 1] == value.ident); }')])
     fns['element_delete_by_id'] = Fn(
         FI, 'impl HasChildren for XmlElement', 'delete_by_id', props=['C12'], safety_props=['C12'], sig_rules=SRP, label='XmlElement::delete_by_id',
         rules=[Rule('R11', r'self\.children\.borrow_mut\(\)\.', 'self.children.', 'RefCell borrow dropped (A4)'),
